@@ -1,7 +1,7 @@
 """C03 – block reads and range iteration: case generation."""
 import random
 from vf import Case
-from gen import constants
+from gen import constants, cloops
 from props.regcommon import checks, default_for
 
 ID = "C03"
@@ -9,7 +9,8 @@ DRIVER = "drv_regtable"
 HARNESS = "h_regtable"
 QUICK_LEVEL = "thorough"      # the larger case set costs only seconds
 THOROUGH_SEEDS = 8
-GEN = [constants.gen]
+GEN = [constants.gen, cloops.regs_gen]      # tie A: the address arithmetic of registers/core.c, translated from clang's AST
+tie_modules = cloops.regs_tie_modules
 TIE = ['Ufw.Tie.RegTable']
 RULE = ("the small-scope table family of C02 plus write-only areas (flag and missing read callback): EVERY (address, length) window position "
         "incl. starts in holes, in gaps between registers, inside multi-word registers and at area edges, for block reads (caller buffer of "
